@@ -6,6 +6,8 @@ checks = {
  "C03": ("pipeline-sim", "4 (C03)", "deterministic simulation: seeded controller decides every channel operation of every pipeline goroutine; exact deadlock/leak census at quiescence; outputs compared with the canonical FIFO schedule"),
  "C04": ("pipeline-sim", "4 (C04)", "deterministic simulation: producers stalled after every position with quiescence detection (causality: values delivered before later inputs exist cannot depend on them); EOF-at-cut and altered-suffix differential runs for the positions that are not prompt"),
  "C05": ("pipeline-sim", "4 (C05)", "deterministic simulation: seeded schedules + end-of-stream around the strategy warm-up; count/alphabet/Hold-through-warm-up oracle on the action stream"),
+ "C09": ("pipeline-sim", "4 (C09)", "deterministic simulation: several Compute/Report calls on one instance, sequential or interleaved stage by stage by the seeded controller; oracle = fresh-instance results; (race clause: Go race detector on free-running runs of the same workloads)"),
+ "C11": ("io-sim", "4 (C11)", "deterministic simulation: histories of write/append/append-or-write on one path with row producers and reader goroutines under the seeded controller, fragmenting readers; model-file oracle after every operation, bit-exact"),
  "C14": ("pipeline-sim", "4 (C14)", "deterministic simulation: the real template renders the report as a lock-step single-task consumer of all column channels under seeded schedules; closed-channel probes on column reads, reflection drain of the column channels after the last row, exact census, rendered rows compared with the strategy's own Compute/Outcome"),
  "C16": ("pipeline-sim", "4 (C16)", "deterministic simulation: seeded schedules, independently placed ends of the input streams, capacities; exact slice-model oracle plus exact census (longer inputs consumed, outputs closed, no task left)"),
 }
@@ -14,9 +16,7 @@ na = {
  "C06": "pure function of the OHLCV values (decision rule on documented fields); nothing a simulator controls can change it",
  "C07": "pure transducers over action words and closing prices; their liveness with real sub-strategies is covered by C03/C05",
  "C08": "sequential state machine over two value sequences; nothing concurrent, timed or faulty decides it",
- "C09": "not claimed yet in this revision (check under construction)",
  "C10": "not claimed yet in this revision (check under construction)",
- "C11": "not claimed yet in this revision (check under construction)",
  "C12": "not claimed yet in this revision (check under construction)",
  "C13": "not claimed yet in this revision (check under construction)",
  "C15": "range/ordering of indicator values is a pure function of the inputs",
@@ -36,7 +36,9 @@ m = {
   "add_only": True,
  },
  "engines": [
-  {"name": "pipeline-sim", "path": "/verif/simrt + /verif/siminstr + /verif/harness", "serves_properties": sorted(checks),
+  {"name": "io-sim", "path": "/verif/harness (simenv.go, c10/c11/c19)", "serves_properties": sorted(k for k in checks if checks[k][0]=="io-sim"),
+   "kind_free_text": "same controller; simulated byte sources/sinks (fragmenting and failing readers/writers), simulated HTTP transport and SQL driver, real files in a per-run directory"},
+  {"name": "pipeline-sim", "path": "/verif/simrt + /verif/siminstr + /verif/harness", "serves_properties": sorted(k for k in checks if checks[k][0]=="pipeline-sim"),
    "kind_free_text": "deterministic simulation: real goroutines and channels of the instrumented library, one task released at a time by a seeded controller at testing/synctest quiescence; harness-owned producers, consumers, stream ends and faults"},
  ],
  "checks": [],
